@@ -60,7 +60,9 @@ def conform(label, inputs, ghost_values=None, max_fail=6, call=None):
                 ret = call(target, ns)
             else:
                 ret = target(*[ns[p] for p in names])
-        except Exception as e:  # noqa
+        except (KeyboardInterrupt, SystemExit):
+            raise
+        except BaseException as e:  # noqa  (the library's own error types derive from BaseException)
             ok = False
             if c.exceptional is not None:
                 try:
@@ -84,7 +86,9 @@ def conform(label, inputs, ghost_values=None, max_fail=6, call=None):
             for combo in combos:
                 try:
                     ok = bool(_call_spec(f, dict(full, **dict(zip(gs, combo)))))
-                except Exception as e:  # noqa
+                except (KeyboardInterrupt, SystemExit):
+                    raise
+                except BaseException as e:  # noqa
                     ok, combo = False, combo + ("clause raised %s" % type(e).__name__,)
                 if not ok:
                     bad = combo
